@@ -91,7 +91,7 @@ fn child(args: &[String]) {
         let (case, result, extra_disc) = if prop == "C18" {
             let (case, res, stats2) = meta::run_meta_case(seed, worker, index);
             stats.merge(&stats2);
-            (case, CheckResult { disc: None, dontcare_divergent: false, stats: Stats::default() }, res)
+            (case, CheckResult { disc: None, soft: None, dontcare_divergent: false, stats: Stats::default() }, res)
         } else {
             let case = case_for(&prop, seed, worker, index, prop == "C14");
             let trace = run_case(&case);
@@ -121,9 +121,20 @@ fn child(args: &[String]) {
         if samples.len() < 3 && nontrivial(&case) && index % 7 == 3 {
             samples.push(format!("{case}"));
         }
-        let disc = result.disc.or(extra_disc);
+        let hit = |d: &harness::check::Discrepancy| d.props.iter().any(|p| *p == prop) || prop == "ALL";
+        let disc = match (result.disc, result.soft) {
+            (Some(d), Some(s)) => {
+                if !hit(&d) && hit(&s) {
+                    Some(s)
+                } else {
+                    Some(d)
+                }
+            }
+            (d, s) => d.or(s),
+        }
+        .or(extra_disc);
         if let Some(d) = disc {
-            if d.props.iter().any(|p| *p == prop) || prop == "ALL" {
+            if hit(&d) {
                 violations += 1;
                 if violations <= 5 {
                     let line = Obj::new()
@@ -160,8 +171,8 @@ fn child(args: &[String]) {
                 stats.merge(&result.stats);
                 stats.bump("prefix_extension_cases");
                 hashes.insert(case.hash64());
-                if let Some(d) = result.disc {
-                    if d.props.iter().any(|p| *p == "C04") {
+                if let Some(d) = result.disc.into_iter().chain(result.soft).find(|d| d.props.iter().any(|p| *p == "C04")) {
+                    {
                         local_viol += 1;
                         if local_viol <= 3 {
                             let line = Obj::new()
@@ -198,8 +209,8 @@ fn child(args: &[String]) {
             stats.merge(&result.stats);
             stats.bump("enumerated_sequences");
             hashes.insert(case.hash64());
-            if let Some(d) = result.disc {
-                if d.props.iter().any(|p| *p == "C09") {
+            if let Some(d) = result.disc.into_iter().chain(result.soft).find(|d| d.props.iter().any(|p| *p == "C09")) {
+                {
                     local_viol += 1;
                     if local_viol <= 3 {
                         let line = Obj::new()
